@@ -2,7 +2,8 @@
 dominance of success returns, error-result checks, bounded copies (DESIGN.md §4 C18)."""
 from .. import flow, cfg as cfgmod
 from ..facts import AnalysisBroken
-from ..flow import lvalue_key, is_assign, pretty_key
+from ..flow import lvalue_key, is_assign, pretty_key, _strip_casts
+import re
 from ..controls import load_controls
 
 EXPLANATION = ('Static path rules over the clang CFG of the eight file readers: R-PAIR (no exit edge carries an open '
@@ -280,6 +281,63 @@ def run_rules(ctx, db, fns, summaries, nullable):
     return n_exit, n_loop, n_null
 
 
+STDIO_LOG = {'fprintf', 'fputs', 'fputc', 'putc', 'fflush', 'fwrite', 'vfprintf'}
+
+
+def check_logger_guards(ctx, dbx, label, files=None, only=None):
+    """error_logger may be NULL (logging disabled): every stdio call on it is under a test of the pointer."""
+    n = 0
+    for f in dbx.functions:
+        if f.body is None or not f.relfile().startswith(('src/', 'include/')):
+            continue
+        if files is not None and f.relfile() not in files:
+            continue
+        if only is not None and f.qn not in only:
+            continue
+        for c in f.walk():
+            if c.k != 'CallExpr' or c.callee not in STDIO_LOG:
+                continue
+            if not any(_strip_casts(a).k == 'DeclRefExpr' and _strip_casts(a).n == 'error_logger' for a in c.args):
+                continue
+            n += 1
+            guarded = False
+            cur = c
+            for a in c.ancestors():
+                if a.k == 'IfStmt' and (a.child('then') is cur or any(x is c for x in (a.child('then').walk() if a.child('then') is not None else []))):
+                    cond = a.child('cond')
+                    for cj in flow_conjuncts(cond):
+                        cj = _strip_casts(cj)
+                        if cj.k == 'DeclRefExpr' and cj.n == 'error_logger':
+                            guarded = True
+                        if cj.k == 'BinaryOperator' and cj.op == '!=' and 'error_logger' in cj.text():
+                            guarded = True
+                cur = a
+            ctx.check(guarded, 'R-NULL.logger', '%s/%s/%s@%s' % (label, f.qn.replace('gdstk::', ''), c.callee, c.loc()), c.loc(), 'log call under `if (error_logger)`',
+                      '%s(error_logger, ...) is reached without testing error_logger: with logging disabled (set_error_logger(NULL)) this path dereferences a null FILE* (%s configuration)' % (c.callee, label))
+    return n
+
+
+def flow_conjuncts(c):
+    c = _strip_casts(c)
+    if c is not None and c.k == 'BinaryOperator' and c.op == '&&':
+        return flow_conjuncts(c.child('lhs')) + flow_conjuncts(c.child('rhs'))
+    return [c]
+
+
+def debug_units(repo):
+    """translation units that use the debug-only logging macros outside comments"""
+    import os
+    from ..facts import source_units
+    out = []
+    for u in source_units(repo):
+        src = open(u, errors='replace').read()
+        src = re.sub(r'//[^\n]*', '', src)
+        src = re.sub(r'/\*.*?\*/', '', src, flags=re.S)
+        if re.search(r'\bDEBUG_(PRINT|HERE)\b', src):
+            out.append(u)
+    return out
+
+
 def run(ctx):
     db = ctx.db
     fns = {qn: db.fn(qn) for qn in READERS}
@@ -320,6 +378,30 @@ def run(ctx):
         nb += flow.check_bounded_copies(ctx, fns[qn], db)
     ctx.require('R-BOUND fixed-size destinations', nb, 1)
 
+    # R-NULL.logger: release configuration (all units) and the default CMake configuration (no NDEBUG) for the
+    # units that use the debug-only logging macros, which expand to stdio calls on error_logger
+    reach = set()
+    work = [fns[q] for q in FLOW_READERS]
+    while work:
+        f_ = work.pop()
+        if f_.qn in reach:
+            continue
+        reach.add(f_.qn)
+        for c_ in f_.walk():
+            if c_.k in ('CallExpr', 'CXXMemberCallExpr', 'CXXOperatorCallExpr') and (c_.callee or '').startswith('gdstk::'):
+                for g_ in db.fn(c_.callee, all=True, required=False) or []:
+                    if g_.body is not None and g_.qn not in reach:
+                        work.append(g_)
+    nl = check_logger_guards(ctx, db, 'NDEBUG', only=reach)
+    ctx.require('R-NULL.logger log sites (release)', nl, 30)
+    from ..facts import load_variant
+    du = debug_units(db.repo)
+    if not du:
+        raise AnalysisBroken('no unit uses DEBUG_PRINT/DEBUG_HERE any more: drop the debug-configuration pass')
+    vdb = load_variant(db.repo, du, ['-UNDEBUG'])
+    nd = check_logger_guards(ctx, vdb, 'no-NDEBUG', files={'src/' + u.split('/src/')[-1] for u in du}, only=reach)
+    ctx.require('R-NULL.logger log sites (debug configuration)', nd, 3)
+
     # positive controls: the same rules must fire on seeded miniatures
     cdb = load_controls()
     for name, rule_fn, expect in (
@@ -341,7 +423,7 @@ XREF_FILES = ["src/library.cpp", "src/rawcell.cpp", "src/gdsii.cpp", "src/oasis.
 
 
 MANIFEST = dict(
-   text='Decides, for every CFG path of the eight file readers, the structural necessary conditions of crash/leak/false-success freedom: no exit edge carries an open FILE* (R-PAIR, incl. the ref-counted RawSource idiom and its guard), every loop makes progress on every path (R-LOOP), nullable results are tested before use (R-NULL), success returns are dominated by the ENDLIB arm and error exits return an empty value and set the error code (R-MUSTPASS), every gdsii_read_record result is checked and its short-read tests compare the fread result with the requested count (R-ERRCHK, linear normalisation), copies into fixed-size objects are bounded (R-BOUND). All paths / all exits, no input bound. Does not decide absence of every memory error for every byte pattern, nor checksum coincidences.',
+   text='Decides, for every CFG path of the eight file readers, the structural necessary conditions of crash/leak/false-success freedom: no exit edge carries an open FILE* (R-PAIR, incl. the ref-counted RawSource idiom and its guard), every loop makes progress on every path (R-LOOP), nullable results are tested before use (R-NULL), success returns are dominated by the ENDLIB arm and error exits return an empty value and set the error code (R-MUSTPASS), every gdsii_read_record result is checked and its short-read tests compare the fread result with the requested count (R-ERRCHK, linear normalisation), copies into fixed-size objects are bounded (R-BOUND); every stdio call on the (nullable) error logger reachable from the readers is under a test of the pointer, in the release configuration and - for the units that use the debug-only logging macros - in the default configuration without NDEBUG (R-NULL.logger). All paths / all exits, no input bound. Does not decide absence of every memory error for every byte pattern, nor checksum coincidences.',
    note='Trusted: clang 14 front end and clang::CFG, tools/gx/gx.cc, sa/*.py; libc model (fopen may return NULL, fclose releases, fread returns item count); callee summaries only for functions under /repo. Path-insensitive joins only add states, so a pass covers all feasible paths.',
    technique='custom typestate / dominance / loop-progress dataflow over the clang CFG (libTooling extractor + Python rules)',
    design='§4 C18')
